@@ -12,6 +12,7 @@ import (
 	"github.com/jamf/regatta/storage/table/key"
 	sm "github.com/lni/dragonboat/v4/statemachine"
 
+	c01pkg "verif/harness/checks/c01"
 	. "verif/harness/cmdx"
 	"verif/harness/evid"
 	"verif/harness/fsmx"
@@ -81,7 +82,7 @@ func Run(r *evid.Run) {
 	ks := keys(r.Thorough())
 	n := len(ks)
 	encs := make([][]byte, n)
-	r.Rule(fmt.Sprintf("%d keys = every byte string of length 1..3 over {00,01,61,FE,FF} plus boundary lengths {1018,1019,1020,1023,1024} x 4 fill patterns: all keys for round trip through DecodeBytes and the stream Decoder, all ordered pairs for injectivity and order preservation, all triples (lo,k,hi) for range membership, and every key through a real FSM (put alone; wildcard read and delete; index lookups intact); sibling sweep: for every shared-prefix length 0..1023 the keys p^n+a, p^n+b, p^n+a\\x00 and p^n itself through a real FSM (each alone, built up, torn down) with point reads, counted point deletes of absent siblings and transaction reads against the reference map. Non-trivial: the pair/triple has distinct members; distinct = distinct (relation outcome) tuples", n))
+	r.Rule(fmt.Sprintf("%d keys = every byte string of length 1..3 over {00,01,61,FE,FF} plus boundary lengths {1018,1019,1020,1023,1024} x 4 fill patterns: all keys for round trip through DecodeBytes and the stream Decoder, all ordered pairs for injectivity and order preservation, all triples (lo,k,hi) for range membership, and every key through a real FSM (put alone; wildcard read and delete; index lookups intact); sibling sweep: for every shared-prefix length 0..1023 the keys p^n+a, p^n+b, p^n+a\\x00 and p^n itself through a real FSM (each alone, built up, torn down) with point reads, counted point deletes of absent siblings and transaction reads against the reference map; every pair of key lengths 1..20 through one apply call whose later commands read the call's pending writes (order inside the indexed batch). Non-trivial: the pair/triple has distinct members; distinct = distinct (relation outcome) tuples", n))
 	// round trips
 	for i, k := range ks {
 		e, err := enc(k)
@@ -181,6 +182,18 @@ func Run(r *evid.Run) {
 		}
 	})
 	r.Extra("sibling_prefix_lengths", maxN+1)
+	// "the byte order of encoded user keys is the byte order of the user keys" also inside the
+	// pending writes of an apply call (pebble orders an indexed batch with the comparer's
+	// abbreviated keys): every pair of key lengths 1..20, two orders (the sweep lives in C01)
+	const maxLen = 20
+	par.For(int64(maxLen*maxLen*2), r.Expired, func(i int64) {
+		lc := c01pkg.Case{Kind: "lengths", Lo: int(i%maxLen) + 1, Hi: int(i/maxLen%maxLen) + 1, Flags: int(i / maxLen / maxLen)}
+		sigs, details := c01pkg.RunLengthsExt(lc)
+		r.Outcome(fmt.Sprint("lengths", lc.Lo, lc.Hi, lc.Flags, len(sigs)), true)
+		for k, sg := range sigs {
+			r.Violate("order-inside-apply-call/"+sg, details[k], Case{Kind: "lengths", A: fmt.Sprint(lc.Lo), B: fmt.Sprint(lc.Hi), I: lc.Flags})
+		}
+	})
 	r.Sample(map[string]any{"pair": []string{qk(ks[3]), qk(ks[40])}, "triple": []string{qk(ks[tk[1]]), qk(ks[tk[5]]), qk(ks[tk[9]])}, "fsm_key": qk(ks[n-1])})
 	r.Assume("byte-wise lexicographic order (bytes.Compare) is the order of the store (pebble DefaultComparer.Compare, as configured in pebble/pebble.go)")
 }
@@ -356,6 +369,17 @@ func runFSM(k []byte) (vs [][2]string) {
 func Replay(raw json.RawMessage) (string, bool) {
 	var c Case
 	_ = json.Unmarshal(raw, &c)
+	if c.Kind == "lengths" {
+		var l1, l2 int
+		fmt.Sscan(c.A, &l1)
+		fmt.Sscan(c.B, &l2)
+		sigs, details := c01pkg.RunLengthsExt(c01pkg.Case{Kind: "lengths", Lo: l1, Hi: l2, Flags: c.I})
+		var sb strings.Builder
+		for k := range sigs {
+			fmt.Fprintf(&sb, "order-inside-apply-call/%s: %s\n", sigs[k], details[k])
+		}
+		return sb.String(), len(sigs) == 0
+	}
 	if c.Kind == "sibling" {
 		vs := runSiblings(c.I)
 		var sb strings.Builder
